@@ -63,7 +63,20 @@ def observe(table, tokens: Tokens) -> tuple[int, int, list[list[tuple[int, int, 
     cells = table.rows()
     grid = []
     for vr, cr in zip(values, cells):
-        grid.append([(tokens.tok(v), c.row, c.col) for v, c in zip(vr, cr)])
+        row = [(tokens.tok(v), c.row, c.col) for v, c in zip(vr, cr)]
+        # the two views must have the same shape: what one of them has beyond the other is kept, at position (-1, -1), so that
+        # `well_formed` sees it (values without a cell, cells without a value)
+        row += [(tokens.tok(v), -1, -1) for v in vr[len(cr):]] + [(tokens.tok(c.value), -1, -1) for c in cr[len(vr):]]
+        grid.append(row)
+    for vr in values[len(cells):]:
+        grid.append([(tokens.tok(v), -1, -1) for v in vr])
+    for cr in cells[len(values):]:
+        grid.append([(tokens.tok(c.value), -1, -1) for c in cr])
+    # values_only must also agree with the cells' own values
+    for r, (vr, cr) in enumerate(zip(values, cells)):
+        for c, (v, cell) in enumerate(zip(vr, cr)):
+            if tokens.tok(v) != tokens.tok(cell.value):
+                grid[r][c] = (grid[r][c][0], -2, -2)
     return table.num_rows, table.num_cols, grid
 
 
